@@ -130,11 +130,12 @@ class Ctx:
     # ---- findings -------------------------------------------------------------------------
     def save_replay(self, payload: dict, sub: str = "replays") -> str:
         name = sha1_of(payload)[:16] + ".json"
-        d = VERIF / sub / self.prop
+        base = Path(os.environ["VERIF_OUT_DIR"]) if os.environ.get("VERIF_OUT_DIR") else VERIF
+        d = base / sub / self.prop
         d.mkdir(parents=True, exist_ok=True)
         p = d / name
         p.write_text(json.dumps(payload, indent=1, sort_keys=True, default=str))
-        return str(p.relative_to(VERIF))
+        return str(p.relative_to(VERIF)) if p.is_relative_to(VERIF) else str(p)
 
     def violation(self, disc: dict, payload: dict) -> None:
         path = self.save_replay({"property": self.prop, "discrepancy": disc, **payload})
@@ -171,8 +172,8 @@ class Ctx:
             "wall_s": round(time.time() - self.t0, 2),
             "violations": len(self.violations),
         }
-        d = VERIF / "evidence"
-        d.mkdir(exist_ok=True)
+        d = (Path(os.environ["VERIF_OUT_DIR"]) if os.environ.get("VERIF_OUT_DIR") else VERIF) / "evidence"
+        d.mkdir(parents=True, exist_ok=True)
         (d / f"{self.prop}.json").write_text(json.dumps(ev, indent=1, default=str) + "\n")
 
     def finish(self) -> int:
